@@ -25,6 +25,11 @@ Calibration (false alarms of the first version, corrected)
 * Python-scalar operands: numpy.ma converts the scalar to a 0-d array before the ufunc, so `masked_uint8 * 2` is int64 in
   numpy.ma but uint8 under NumPy's weak-scalar rules (which dask's metadata follows), and `masked_uint8 * -1` does not
   raise in numpy.ma while NumPy proper does: dtype not compared for Python-scalar operands, uint8 with -1 rejected.
+* 0-d masked operand with a Python scalar: rejected (dask enforces the weak-scalar dtype on numpy.ma's int64 result;
+  thorough run: `elem:floordiv:y=python-scalar&0-d:ValueError` for uint8 // 2).
+* std/var with ddof >= count and NOTHING masked: numpy.ma gives nan for nomask and `masked` for an all-False mask array
+  (thorough run: `reduce:std-var:ddof>=count:mask` with mask flavour nomask): rejected; with something masked the
+  reference is unambiguous and stays in the domain.
 * `numpy MaskedArray <op> dask array` never reaches dask (MaskedArray.__op__ computes it): reversed binary operators
   with a numpy operand are run in the forward direction.
 * numpy.ma mean/std/var of float32 are float64 with a mask array and float32 with nomask: only the dtype kind is
@@ -63,9 +68,9 @@ FLOORS = {"quick": {"evaluations": 2600, "distinct_nontrivial": 1700,
                     "counters": {"compared": 2300, "with_allmasked_chunk": 550, "reference_has_masked_output": 900,
                                  "reduce_with_fully_masked_cell": 90, "with_nomask": 80, "reference_masked_constant": 60},
                     "max_skipped_fraction": 0.3},
-          "thorough": {"evaluations": 24000, "distinct_nontrivial": 20000,
-                       "counters": {"compared": 22000, "with_allmasked_chunk": 5500, "reference_has_masked_output": 9000,
-                                    "reduce_with_fully_masked_cell": 1300, "with_nomask": 1300},
+          "thorough": {"evaluations": 24000, "distinct_nontrivial": 13000,
+                       "counters": {"compared": 20000, "with_allmasked_chunk": 10000, "reference_has_masked_output": 9000,
+                                    "reduce_with_fully_masked_cell": 1600, "with_nomask": 1500},
                        "max_skipped_fraction": 0.3}}
 EXHAUSTIVE_SPACE = ("all 4x2=8 chunkings of a (2,3) array x all 64 masks under sum(axis=None|0|1), filled() and "
                     "masked + plain")
@@ -484,6 +489,10 @@ def _run(case, ctx):
         s2 = tuple(case["s2"])
         if yk == "scalar":
             y = dy = case["scalar"]
+            if not shape:
+                # Calibration: for 0-d results dask enforces its (weak-scalar) lazy dtype on numpy.ma's (array-promoted)
+                # result: a silent cast for signed types, an error for uint8 // 2 -> int64.  Same numpy.ma quirk as below.
+                raise _Reject("0-d masked operand with a Python scalar: numpy.ma scalar-conversion quirk")
             if dtype == "uint8" and y == -1:
                 # Calibration: NumPy proper raises OverflowError for uint8 <op> -1 (weak scalars); numpy.ma converts the
                 # scalar to an int64 array first.  Same Python-scalar quirk as for the dtype.
@@ -536,6 +545,11 @@ def _run(case, ctx):
         cnt = np.asarray(np.ma.count(mx, axis=ax))
         empty = "empty-cell" if (cnt == 0).any() else ""        # an output cell all of whose inputs are masked
         dd = "ddof>=count" if (ddof and (cnt - ddof <= 0).any()) else ""
+        if dd and not np.ma.getmaskarray(mx).any():
+            # Calibration: with nothing masked numpy.ma's var/std give nan for mask=nomask (ndarray code path) but `masked`
+            # for an all-False mask ARRAY; the two are the same mask, so the reference does not define this corner.
+            ctx.reject("ddof >= count with nothing masked: numpy.ma's answer depends on nomask vs all-False mask array")
+            return
         if empty:
             ctx.count("reduce_with_fully_masked_cell")
         flags = _flags(empty, dd, "scalar-output" if (dd and cnt.ndim == 0) else "") if (empty or dd) else _flags(zd)
